@@ -14,6 +14,8 @@ import querygen
 
 FIXED_Q = ["SELECT * FROM a", "SELECT f FROM a GROUP BY b, period(4s)", "SELECT f, g FROM a GROUP BY a HAVING f > 16",
            "SELECT f FROM a GROUP BY a ORDER BY f DESC LIMIT 2", "SELECT f FROM a WHERE b IN (SELECT b FROM b) GROUP BY a",
+           # a sub-query whose result differs from partition to partition: the leader's (complete) result must travel with the query
+           "SELECT f FROM a WHERE a IN (SELECT a FROM a WHERE b = 'y' GROUP BY a) GROUP BY a, b",
            "SELECT f FROM a GROUP BY CROSSTAB(b), a", "SELECT f / _points AS avgf, _points FROM a GROUP BY b",
            "SELECT SHIFT(f, '-2s') AS sh, f FROM a GROUP BY a", "SELECT f FROM (SELECT f, g FROM a GROUP BY a, b) GROUP BY b",
            "SELECT f FROM b", "SELECT f FROM a WHERE a = 1 OR b = 'x'", "SELECT f FROM a ASOF '-6s' UNTIL '-1s' GROUP BY a",
@@ -35,7 +37,8 @@ def wire_scenario(scn, rng, P, variant, nq, faults=False):
     qs = []
     pool = list(FIXED_Q)
     rng.shuffle(pool)
-    for q in pool[:nq // 2] + [q for q in FIXED_Q[-3:] if q not in pool[:nq // 2]][:2]:
+    must = [q for q in FIXED_Q if " IN (SELECT" in q and q not in pool[:nq // 2]]
+    for q in pool[:nq // 2] + must + [q for q in FIXED_Q[-3:] if q not in pool[:nq // 2]][:2]:
         qs.append({"sql": q})
     while len(qs) < nq:
         q = querygen.gen_query(rng, tabs, now_hint=5)
@@ -116,7 +119,8 @@ def validate_wire(traces, workdir):
                 f.write(json.dumps({"a": "Reset", "ses": ses, "side": "", "kind": "", "d": ""}) + "\n")
                 index.append((ses, None))
                 for e in evs:
-                    f.write(json.dumps({"a": "Msg", "ses": ses, "side": e["side"], "kind": e["kind"], "d": e["d"]}) + "\n")
+                    # (a query message is its text and everything else it carries: QueryIntact covers both)
+                    f.write(json.dumps({"a": "Msg", "ses": ses, "side": e["side"], "kind": e["kind"], "d": e["d"] + ("\x1f" + e["m"] if e.get("m") else "")}) + "\n")
                     index.append((ses, e))
     if not index:
         return {}, [], 0, 0
